@@ -36,6 +36,18 @@ CLAIMED = {
     "C04": ("exploration",
             "Tight timeouts around the destination's next blocks, per-chain clock skew and jumps, early/stale/future proof heights, receive raced against timeout. Every accepted timeout is judged against the destination's REAL history kept by the simulator (state at the proof version, header time at the proof height; localhost: the executing block), every receive against the timeout at its block; nothing may be both received and timed out.",
             "deterministic simulation: clock skew/jumps + racing relays, ground-truth oracle over the destination's recorded history", "8 C04"),
+    "C05": ("fault_enumeration",
+            "Malicious-relayer mutation sweep inside the simulator: for valid pending receive messages one or two fields chosen by reflection over the whole message (so new fields are covered) are mutated and the message is delivered alone in a block, at every packet/channel/client state the run reaches; a mutated message must not succeed, must not reach the application and must leave an empty store diff. Honest receives are checked against ground truth (source really stores the commitment of exactly these fields at the proven version; destination block before the timeout; channel not CLOSED). The single-field sweep is enumerated by (leaf index, variant) draws and its coverage (distinct field x mutation x state) is reported; the universal claim over all inputs is sampled.",
+            "deterministic simulation with a malicious-relayer fault model: reflective single/double field mutation of real relay messages, ground-truth + store-diff oracle", "8 C05"),
+    "C06": ("fault_enumeration",
+            "As C05 for acknowledgement messages (v1 ack bytes, v2 app-ack list order/length, packet fields, sequence, proof, height) and forged acks; honest acks are checked against the destination's real stored ack commitment at the proven version and the bytes handed to the sending application equal what the destination application produced.",
+            "deterministic simulation with a malicious-relayer fault model: reflective mutation of acknowledgement messages, ground-truth oracle", "8 C06"),
+    "C19": ("exploration",
+            "Connections with delay periods and per-chain MaxExpectedTimePerBlock knobs incl. a pair beyond 2^53; the relayer updates the client then probes receive/ack/timeout exactly at processed-time+delay -1ns/+0/+1ns and processed-height+ceil(delay/perBlock) -1/+0/+1 (simulated clock makes 104-day delays free). Exact integer model over the processed time/height stored by the client: accepted => both delays passed; refused-for-delay => not both passed.",
+            "deterministic simulation: simulated clock + block-count boundary probes, exact integer reference model", "8 C19"),
+    "C27": ("exploration",
+            "Localhost loopback traffic end to end plus, at seeded points, VerifyMembership/VerifyNonMembership for 09-localhost through the client router on a throw-away branch of the latest state with keys sampled from the store census, perturbed keys, wrong values and wrong proofs; verdicts must equal the census. Client operations addressed to 09-localhost must be refused with no state change.",
+            "deterministic simulation: store-census reference model for localhost verification at seeded points of live histories", "8 C27"),
     "C08": ("exploration",
             "Interleaved v1 sends, v2 sends on the alias of the same channel and on plain clients (several users per block), timeouts on every guard boundary, clients expiring between sends, channels closing. Oracles: returned sequences per source id are 1,2,3,... (shared by v1 and alias); one new commitment key per successful send; accept/refuse equals the specification's guard predicate evaluated on the real pre-state.",
             "deterministic simulation: interleaved v1/alias/v2 sends with boundary timeouts, sequential counter model + guard predicate on real pre-state", "8 C08"),
